@@ -417,7 +417,7 @@ func randFieldOptions(r *rand.Rand, f *ir.File, c *ir.Config) {
 	}
 	if r.Intn(2) == 0 {
 		c.InjectedFields = map[string][]ir.Injected{}
-		c.InjectedFields[c.Types[0]] = []ir.Injected{{Name: "id", Type: "github.com/hashicorp/terraform-plugin-framework/types.StringType", Computed: true}}
+		c.InjectedFields[c.Types[0]] = []ir.Injected{{Name: "injected_id", Type: "github.com/hashicorp/terraform-plugin-framework/types.StringType", Computed: true}}
 		for _, o := range occ {
 			if o.Field.Kind == ir.KMessage && o.Field.CustomType == "" && r.Intn(4) == 0 {
 				c.InjectedFields[o.Path] = []ir.Injected{{Name: "injected_extra", Type: "github.com/hashicorp/terraform-plugin-framework/types.Int64Type", Optional: true,
@@ -438,4 +438,60 @@ func randFieldOptions(r *rand.Rand, f *ir.File, c *ir.Config) {
 			}
 		}
 	}
+}
+
+// OptionVariant applies the k-th pseudo-random set of per-field options and a
+// comment torture to a (fresh) entry; the entry's own per-field options are dropped.
+func OptionVariant(e *Entry, seed int64, k int) *Entry {
+	r := rand.New(rand.NewSource(seed*7919 + int64(k)*104729 + 5))
+	c := e.Cfg
+	c.ExcludeFields, c.RequiredFields, c.ComputedFields, c.SensitiveFields = nil, nil, nil, nil
+	c.NameOverrides, c.Validators, c.PlanModifiers, c.InjectedFields = nil, nil, nil, nil
+	customs, suff := c.CustomTypes, c.Suffixes
+	randFieldOptions(r, e.File, c)
+	if customs != nil {
+		c.CustomTypes, c.Suffixes = customs, suff
+	}
+	for _, m := range e.File.Messages {
+		for _, fl := range m.Fields {
+			switch r.Intn(4) {
+			case 0:
+				fl.Comment, fl.HasComment = "", false
+			case 1, 2:
+				fl.Comment, fl.HasComment = randComment(r, fl.Name), true
+			}
+		}
+	}
+	Rename(e, fmt.Sprintf("%sv%d", e.Name, k))
+	e.Tags = append(e.Tags, "option-variant")
+	return e
+}
+
+// CuratedByName returns a fresh copy of a curated entry.
+func CuratedByName(name string) *Entry {
+	for _, e := range append(Curated(), Exotic()...) {
+		if e.Name == name {
+			return e
+		}
+	}
+	return nil
+}
+
+// Rename gives an entry (and its proto file, proto package and dependency) a new
+// name, so that several variants of one descriptor can be linked into one binary
+// (gogo registers message and enum names globally).
+func Rename(e *Entry, name string) *Entry {
+	old := e.Name
+	e.Name = name
+	f := e.File
+	f.Name = name + ".proto"
+	if f.Package == old {
+		f.Package = name
+	}
+	if f.Dep != nil {
+		f.Dep.Name = strings.Replace(f.Dep.Name, old, name, 1)
+		f.Dep.Package = strings.Replace(f.Dep.Package, old, name, 1)
+		f.Dep.GoPackage = strings.Replace(f.Dep.GoPackage, old, name, -1)
+	}
+	return e
 }
